@@ -268,6 +268,46 @@ func c18RoundTripOn(f *flamego.Flame, got *string, value string) (bad string) {
 	return ""
 }
 
+// c18Several: several cookies set on one response; the client returns them all (the last one of each
+// name); every one must read back byte for byte.
+func c18Several(names []string, val string) string {
+	f := flamego.NewWithLogger(io.Discard)
+	got := map[string]string{}
+	f.Get("/set", func(c flamego.Context) {
+		for i, n := range names {
+			c.SetCookie(http.Cookie{Name: n, Value: fmt.Sprintf("%s#%d", val, i), Path: "/"})
+		}
+	})
+	f.Get("/get", func(c flamego.Context) {
+		for _, n := range names {
+			got[n] = c.Cookie(n)
+		}
+	})
+	spy := &c01Spy{hdr: http.Header{}}
+	f.ServeHTTP(spy, newReq("GET", "/set"))
+	req := newReq("GET", "/get")
+	last := map[string]string{}
+	var order []string
+	for _, ck := range (&http.Response{Header: spy.hdr}).Cookies() {
+		if _, seen := last[ck.Name]; !seen {
+			order = append(order, ck.Name)
+		}
+		last[ck.Name] = ck.Value
+	}
+	for _, n := range order {
+		req.AddCookie(&http.Cookie{Name: n, Value: last[n]})
+	}
+	f.ServeHTTP(&c01Spy{hdr: http.Header{}}, req)
+	want := map[string]string{}
+	for i, n := range names {
+		want[n] = fmt.Sprintf("%s#%d", val, i)
+	}
+	if !reflect.DeepEqual(got, want) {
+		return fmt.Sprintf("cookies %v set on one response with values %q#i read back as %v, expected %v (Set-Cookie headers: %q)", names, val, got, want, spy.hdr["Set-Cookie"])
+	}
+	return ""
+}
+
 func c18Run(r *core.Run) {
 	r.SetBudget(80 * time.Second)
 	maxLen := 2
@@ -384,8 +424,22 @@ func c18Run(r *core.Run) {
 			}
 		}
 	})
-	// longer cookie values
+	// several cookies set on one response, names that are prefixes of one another, in both orders; the
+	// client returns them all; every one must read back byte for byte
 	l := core.NewLocal()
+	for _, names := range [][]string{{"session_id", "session"}, {"session", "session_id"}, {"a", "ab", "abc"}, {"abc", "ab", "a"}, {"ck", "ck"}, {"x", "y", "x"}} {
+		for _, val := range []string{"v", "a+b/c=d e;", "%41"} {
+			l.Evals++
+			l.Transitions++
+			l.Traces++
+			l.NonTrivial++
+			if bad := c18Several(names, val); bad != "" {
+				l.Violate("cookie-roundtrip/several-cookies", bad, c18Case{"several-cookies", fmt.Sprintf("%x", strings.Join(names, ",")), val, false})
+			} else {
+				l.Class("cookie:several-on-one-response")
+			}
+		}
+	}
 	for _, v := range []string{"", "hello world", "a=b; c=d", "\"quoted\"", strings.Repeat("\xff\x00 ;,", 200), "ünïcödé ☃", "%41%zz%", "+ +"} {
 		l.Evals++
 		l.Transitions++
@@ -422,6 +476,8 @@ func c18Replay(raw json.RawMessage) (bool, string) {
 		bad, _, _ = c18CookieRead(w, s, c.Absent)
 	case "cookie-roundtrip":
 		bad = c18RoundTrip(s)
+	case "several-cookies":
+		bad = c18Several(strings.Split(s, ","), c.Raw)
 	}
 	return bad != "", bad
 }
